@@ -1,10 +1,101 @@
-/- driver for C12 : to be filled in (stub keeps Main.lean compiling) -/
+/- driver for C12 (symbolic rewriting): `Rat` instantiation of Model/Symbolic (exact arithmetic; numbers cross
+the protocol as integers or `(num den)` pairs, i.e. the exact value of the binary64 / integer / decimal
+literal that Python's `eval` would use - never decimal text) -/
 import MysticVerif.Basic.Proto
+import MysticVerif.Model.Symbolic
 
 namespace MysticVerif.DrvC12
-open MysticVerif
+open MysticVerif MysticVerif.Sym
+
+def parseNum : Val → Option Rat
+  | .int i => some (i : Rat)
+  | .list [.int n, .int d] => if d = 0 then none else some ((n : Rat) / (d : Rat))
+  | _ => none
+
+def parseNums (v : Val) : Option (List Rat) := do (← v.asList?).mapM parseNum
+
+def parseCmp : Val → Option Cmp
+  | .sym "lt" => some .lt | .sym "le" => some .le | .sym "gt" => some .gt
+  | .sym "ge" => some .ge | .sym "eq" => some .eq | .sym "ne" => some .ne
+  | _ => none
+
+def showCmp : Cmp → String
+  | .lt => "lt" | .le => "le" | .gt => "gt" | .ge => "ge" | .eq => "eq" | .ne => "ne"
+
+/-- `(c co0 co1 ...)` : constant first, then the dense coefficient list -/
+def parseForm (v : Val) : Option (Form Rat) := do
+  match ← parseNums v with
+  | c :: co => some ⟨co, c⟩
+  | [] => none
+
+/-- `(cmp lhs rhs)` -/
+def parseLine : Val → Option (Line Rat)
+  | .list [c, l, r] => do some ⟨← parseForm l, ← parseCmp c, ← parseForm r⟩
+  | _ => none
+
+def parseLines (v : Val) : Option (List (Line Rat)) := do (← v.asList?).mapM parseLine
+
+/-- `(lin cmp lhs rhs)` | `(rat cmp p q r)` -/
+def parseItem : Val → Option (Item Rat)
+  | .list [.sym "lin", c, l, r] => do some (.lin ⟨← parseForm l, ← parseCmp c, ← parseForm r⟩)
+  | .list [.sym "rat", c, p, q, r] => do some (.rat (← parseForm p) (← parseForm q) (← parseCmp c) (← parseNum r))
+  | _ => none
+
+def parseOpt : Val → Option (Option Rat)
+  | .sym "none" => some none
+  | v => do some (some (← parseNum v))
+
+def pR (q : Rat) : String := if q.den = 1 then toString q.num else toString q.num ++ "/" ++ toString q.den
+def pCL (l : CLine Rat) : String := "(" ++ " ".intercalate (showCmp l.cmp :: pR l.c :: l.co.map pR) ++ ")"
+def pCase (s : List (CLine Rat)) : String := "(" ++ " ".intercalate (s.map pCL) ++ ")"
+def pDnf (d : List (List (CLine Rat))) : String := "(" ++ " ".intercalate (d.map pCase) ++ ")"
+
+def parseTLine : Val → Option (TLine Int)
+  | .list [.int e, c] => do some ⟨e, ← parseCmp c⟩
+  | _ => none
+def pTL (l : TLine Int) : String := s!"({l.e} {showCmp l.cmp})"
 
 def handle : Handler
+  | .sym "validate" :: args => Id.run do
+    let some inp := (kw? args "inp").bind Val.asList? |>.bind (·.mapM parseItem) | return "bad-op"
+    let some out := (kw? args "out").bind Val.asList? |>.bind (·.mapM parseLines) | return "bad-op"
+    let ci := (expand inp).map canonSys
+    let co := out.map canonSys
+    return s!"ok accept={pB (dnfEquiv ci co)} nin={ci.length} nout={co.length} cin={pDnf ci} cout={pDnf co}"
+  | .sym "cert" :: args => Id.run do
+    let some inp := (kw? args "inp").bind parseLines | return "bad-op"
+    let some out := (kw? args "out").bind parseLines | return "bad-op"
+    let some A := (kw? args "A").bind Val.asList? |>.bind (·.mapM parseNums) | return "bad-op"
+    let some B := (kw? args "B").bind Val.asList? |>.bind (·.mapM parseNums) | return "bad-op"
+    return s!"ok accept={pB (solveOK inp out A B)}"
+  | .sym "matrix" :: args => Id.run do
+    let some A := (kw? args "A").bind Val.asList? |>.bind (·.mapM parseNums) | return "bad-op"
+    let some b := (kw? args "b").bind parseNums | return "bad-op"
+    let some G := (kw? args "G").bind Val.asList? |>.bind (·.mapM parseNums) | return "bad-op"
+    let some h := (kw? args "h").bind parseNums | return "bad-op"
+    let some txt := (kw? args "txt").bind parseLines | return "bad-op"
+    if A.length != b.length || G.length != h.length then return "err length"
+    let want := matrixRows A b G h
+    return s!"ok accept={pB (sameSystem want txt)} rows={want.length} cin={pCase (canonSys want)} cout={pCase (canonSys txt)}"
+  | .sym "bounds" :: args => Id.run do
+    let some lo := (kw? args "lo").bind Val.asList? |>.bind (·.mapM parseOpt) | return "bad-op"
+    let some hi := (kw? args "hi").bind Val.asList? |>.bind (·.mapM parseOpt) | return "bad-op"
+    let some txt := (kw? args "txt").bind parseLines | return "bad-op"
+    if lo.length != hi.length then return "err length"
+    let want := boundRows lo hi
+    return s!"ok accept={pB (sameSystem want txt)} rows={want.length} cin={pCase (canonSys want)} cout={pCase (canonSys txt)}"
+  | .sym "flip" :: args => Id.run do
+    let some c := (kw? args "cmp").bind parseCmp | return "bad-op"
+    return s!"ok flip={showCmp c.flip} flipB={showCmp c.flipB}"
+  | .sym "merge" :: args => Id.run do
+    let some incl := (kw? args "inclusive").bind Val.asBool? | return "bad-op"
+    let some eqs := (kw? args "eqs").bind Val.asList? |>.bind (·.mapM parseTLine) | return "bad-op"
+    if incl then
+      return s!"ok out={pL ((mergeIncl eqs).map pTL)}"
+    else
+      match mergeExcl eqs with
+      | none => return "ok none"
+      | some o => return s!"ok out={pL (o.map pTL)}"
   | _ => "bad-op"
 
 end MysticVerif.DrvC12
